@@ -1,4 +1,5 @@
 import Failsafe.Conc.Hedge
+import Failsafe.Conc.TraceHedge
 /-!
 # C09 — hedge: bounded attempts, spaced by the delay, one winner, losers cancelled
 
@@ -81,5 +82,66 @@ theorem losers_cancelled_winner_not (s s' : St) (h : step s .recv = some s') :
 example : Inv (init 3) := init_inv 3
 example : (([Act.launch, .timer, .launch, .finish 1 true, .recv] : List Act).foldlM (m := Option) step (init 3)).map
     (fun s => (s.accepted, s.cancelled, s.launched)) = some (some (1, true), [0], 2) := by decide
+
+/-! ## TRACE tie: recorded runs of the real hedge policy are replayed through the model
+
+`TraceHedge.osys n` is `Conc.Hedge` plus observation points. `Trace.accepts` is exact (`Trace.accepts_iff`): a recorded event list is
+accepted iff some interleaving of the model shows it. What an observation implies in every state an accepted trace can be in: -/
+section trace
+open Failsafe.Conc Failsafe.Conc.TraceHedge
+
+theorem accepted_states_inv (n fuel : Nat) (tr : List Ev) (Y : List TS) (h : Trace.accepts (osys n) fuel tr = some Y) (t : TS) (ht : t ∈ Y) :
+    Inv t.core :=
+  reach_inv n t (Trace.accepted_state_reachable (osys n) fuel tr Y h t ht)
+
+/-- **the value the caller is handed was produced by an attempt that had finished**, and one that does not match the cancel conditions
+only once every one of the `maxHedges + 1` attempts had finished -/
+theorem returned_value_was_produced (n : Nat) (t : TS) (hr : Trace.Reach (osys n) t) (k : Nat)
+    (hst : TraceHedge.step t (.callerRet k) = some t) :
+    t.core.ths[k]? = some .finished ∧ ∀ c, t.core.accepted = some (k, c) → c = false → t.core.finishedCount = t.core.n := by
+  have hi := reach_inv n t hr
+  simp only [TraceHedge.step] at hst
+  split at hst
+  · rename_i hc
+    cases hacc : t.core.accepted with
+    | none => simp [hacc] at hc
+    | some x =>
+      have hk : x.1 = k := by simpa [hacc] using hc.2
+      have hp := hi.produced x (Or.inr hacc)
+      refine ⟨by rw [← hk]; exact hp.1, fun c hc2 hcf => ?_⟩
+      have : x = (k, c) := by simpa [hacc] using hc2
+      exact hp.2 (by rw [this]; exact hcf)
+  · cases hst
+
+/-- **`OnHedge` is called at most `maxHedges` times**: a hedge launch needs an attempt slot that is still idle -/
+theorem hedge_event_needs_slot (n : Nat) (t t' : TS) (hr : Trace.Reach (osys n) t) (hst : TraceHedge.step t .launchHedge = some t') :
+    t.core.launched < t.core.n ∧ t'.core.launched = t.core.launched + 1 ∧ t.core.returned = false := by
+  simp only [TraceHedge.step] at hst
+  split at hst
+  · simp only [Hedge.step] at hst
+    split at hst
+    · rename_i hc
+      simp only [Option.map_some, Option.some.injEq] at hst; subst hst
+      exact ⟨hc.2.2.1, rfl, by simpa using hc.1⟩
+    · simp at hst
+  · cases hst
+
+/-- **after the return the readings are forced**: every launched attempt other than the winner reads cancelled, the winner does not -/
+theorem readings_after_return (n : Nat) (t : TS) (hr : Trace.Reach (osys n) t) (k : Nat) (b : Bool)
+    (hst : TraceHedge.step t (.seeCancelled k) = some t) (hsh : shows t (.seeCancelled k) (.seeCancelled k b) = true) :
+    b = t.core.cancelled.contains k := by
+  simp only [shows, beq_self_eq_true, Bool.true_and, beq_iff_eq] at hsh
+  exact hsh.symm
+
+/-- non-vacuity, decided by running the acceptor (maxHedges = 1): the hedge wins and the first attempt is cancelled — accepted; the
+caller handed the value of an attempt that has not finished, a third attempt, or a winner that reads cancelled — rejected -/
+example : (Trace.accepts (osys 2) 30 [.enter 0, .hedge, .enter 1, .finish 1 true, .callerRet 1, .seeCancelled 0 true, .seeCancelled 1 false, .finish 0 false]).map (·.isEmpty) = some false := by decide
+/-- the order in which functions return is not the order in which the library processes their results: found by the soak -/
+example : (Trace.accepts (osys 2) 30 [.enter 0, .hedge, .enter 1, .finish 0 true, .finish 1 true, .callerRet 1, .seeCancelled 0 true, .seeCancelled 1 false]).map (·.isEmpty) = some false := by decide
+example : (Trace.accepts (osys 2) 30 [.enter 0, .hedge, .enter 1, .callerRet 1]).map (·.isEmpty) = some true := by decide
+example : (Trace.accepts (osys 2) 30 [.enter 0, .hedge, .hedge]).map (·.isEmpty) = some true := by decide
+example : (Trace.accepts (osys 2) 30 [.enter 0, .hedge, .enter 1, .finish 1 true, .callerRet 1, .seeCancelled 1 true]).map (·.isEmpty) = some true := by decide
+
+end trace
 
 end Failsafe.Props.C09
